@@ -297,11 +297,32 @@ func init() {
 			for _, r := range allReturns(adv) {
 				// the early return: not preceded by a store to cumulativeTSN
 				stored := false
-				for _, a := range c.storesIn(adv, c.field("receivePayloadQueue", "cumulativeTSN")) {
+				cumF := c.field("receivePayloadQueue", "cumulativeTSN")
+				for _, a := range c.storesIn(adv, cumF) {
 					if CanReach(a.Instr, r) {
 						stored = true
 					}
 				}
+				// ... or through a private helper (resetTo(cum)) called before this return
+				forEachInstr(adv, func(in ssa.Instruction) {
+					ci, ok := in.(ssa.CallInstruction)
+					if !ok {
+						return
+					}
+					sc := ci.Common().StaticCallee()
+					if sc == nil || !c.P.inPkg(sc) || sc.Blocks == nil {
+						return
+					}
+					writes := false
+					forEachInstrDeep(c.P, sc, 1, func(y ssa.Instruction) {
+						if st, isSt := y.(*ssa.Store); isSt && fieldOfAddr(st.Addr) == cumF {
+							writes = true
+						}
+					})
+					if writes && CanReach(in, r) {
+						stored = true
+					}
+				})
 				if !stored {
 					s := factsSerial(r.Block(), cum, IsParam(adv, 1))
 					if noAdv < 0 {
@@ -413,14 +434,59 @@ func init() {
 					}
 					n++
 					guarded := false
+					isP := func(v ssa.Value) bool { return resolveParamIs(v, fn, 3) }
 					for _, ft := range DomFactsX(cs.(ssa.Instruction).Block()) {
 						b, isB := ft.Cond.(*ssa.BinOp)
 						if !isB {
 							continue
 						}
-						isP := func(v ssa.Value) bool { return resolveParamIs(v, fn, 3) }
 						if ((isP(b.X) && IsConstInt(0)(b.Y)) || (isP(b.Y) && IsConstInt(0)(b.X))) && ((b.Op == token.NEQ && ft.Taken) || (b.Op == token.EQL && !ft.Taken)) {
 							guarded = true
+						}
+					}
+					if !guarded && cs.(ssa.Instruction).Parent() == fn {
+						// merged call site for the looked-up and the freshly created stream (`if !found || ppi != Unknown`):
+						// decide per path — whenever the stream was found, the payload type is known
+						isFound := func(v ssa.Value) (bool, bool) { // (recognised, value of "found" when v is true)
+							if ex, ok := v.(*ssa.Extract); ok && ex.Index == 1 {
+								if lk, isLk := ex.Tuple.(*ssa.Lookup); isLk && IsLoadOf(streamsF)(lk.X) {
+									return true, true
+								}
+							}
+							if b, ok := v.(*ssa.BinOp); ok && (b.Op == token.NEQ || b.Op == token.EQL) {
+								for _, pr := range [][2]ssa.Value{{b.X, b.Y}, {b.Y, b.X}} {
+									if !isNilConst(pr[1]) {
+										continue
+									}
+									x := unconv(pr[0])
+									if ex, isEx := x.(*ssa.Extract); isEx {
+										x = ex.Tuple
+									}
+									if lk, isLk := x.(*ssa.Lookup); isLk && IsLoadOf(streamsF)(lk.X) {
+										return true, b.Op == token.NEQ
+									}
+								}
+							}
+							return false, false
+						}
+						states := pathStatesAt(cs.(ssa.Instruction), func(cond ssa.Value) (string, bool, bool) {
+							if rec, v := isFound(cond); rec {
+								return "found", v, true
+							}
+							if b, ok := cond.(*ssa.BinOp); ok && (b.Op == token.NEQ || b.Op == token.EQL) {
+								if (isP(b.X) && IsConstInt(0)(b.Y)) || (isP(b.Y) && IsConstInt(0)(b.X)) {
+									return "known-ppi", b.Op == token.NEQ, true
+								}
+							}
+							return "", false, false
+						})
+						if len(states) > 0 {
+							guarded = true
+							for _, st := range states {
+								if f, has := st["found"]; (!has || f) && !st["known-ppi"] {
+									guarded = false
+								}
+							}
 						}
 					}
 					c.Check(guarded, ks.key("existing-stream-keeps-its-default-ppi"), c.Pos(cs.(ssa.Instruction)), "overwritten only for a known payload type", "the default PPI of an existing stream is overwritten on every lookup, including the PayloadTypeUnknown lookups of the inbound DATA path")
@@ -518,6 +584,31 @@ func init() {
 				})
 			}
 			c.Check(n >= 1, "teardown-stops-deadline-timer", c.P.Pos(fn.Pos()), fmt.Sprintf("%d close site(s)", n), "unregisterStream does not stop a pending read-deadline timer: its goroutine lives until the deadline")
+		}})
+
+	register(&Rule{ID: "C08.R9", Props: []string{"C08", "C09"}, Engine: "E3",
+		Title:   "Shutdown reports success only for a completed shutdown sequence: the nil return of Association.Shutdown is dominated by a test of shutdownCompleted, and that flag is set only where SHUTDOWN COMPLETE is sent or its receipt is accepted (the write loop also ends on ABORT, Close and transport failure)",
+		MinInst: 2,
+		Run: func(c *RuleCtx) {
+			fn := c.Fn("Association.Shutdown")
+			sc := c.field("Association", "shutdownCompleted")
+			n := 0
+			ks := keyer{}
+			for _, g := range c.P.Region(fn) {
+				for _, r := range allReturns(g) {
+					res := retResults(r)
+					if g != fn || len(res) != 1 || len(phiLeaves(res[0])) != 0 {
+						continue
+					}
+					n++
+					ok := DominatedByExt(r, BoolCond(func(v ssa.Value) bool {
+						return IsLoadOf(sc)(v) || derives(v, IsLoadOf(sc), map[ssa.Value]bool{})
+					}, true))
+					c.Check(ok, ks.key("success-only-when-sequence-completed"), c.Pos(r), "return nil is dominated by shutdownCompleted", "Shutdown returns nil without knowing that the shutdown sequence completed: an aborted or closed association is reported as gracefully shut down")
+				}
+			}
+			c.Check(n >= 1, "success-returns", c.P.Pos(fn.Pos()), fmt.Sprintf("%d nil return(s)", n), "Shutdown has no success return")
+			c.WritersWithin("completed-flag", sc, "Association.handleShutdownComplete", "Association.gatherOutboundShutdownPackets")
 		}})
 }
 
